@@ -43,6 +43,7 @@
 #include "al/os.h"
 #include "threadpool/threadpool.h"
 #include "threadpool/threadpool_msg_sys.h"
+#include "utils/verif_hooks.h"
 
 
 
@@ -117,7 +118,9 @@ tpt_msg_recv_and_process(tp_event_p ev, tp_udata_p tp_udata) {
 			return; /* -1, 0, < sizeof(tpt_msg_pkt_t) */
 		readed = (size_t)rd;
 		cnt = (readed / sizeof(tpt_msg_pkt_t));
+		LCB_VERIF_POINT(LCB_VP_MSG_RECV_AFTER_READ);
 		for (i = 0; i < cnt; i ++) { /* Process loop. */
+			LCB_VERIF_POINT(LCB_VP_MSG_RECV_BETWEEN_PKTS);
 			if (0 == TPT_MSG_PKT_IS_VALID(&msg[i])) { /* Try recover. */
 				SYSLOGD_EX(LOG_WARNING, "tpt_msg_pkt_t damaged!!!");
 				debugd_break();
@@ -180,6 +183,7 @@ tpt_msg_active_thr_count_dec(tpt_msg_data_p msg_data, tpt_p src,
 	msg_data->active_thr_count -= dec;
 	tm = msg_data->active_thr_count;
 	MTX_UNLOCK(&msg_data->lock);
+	LCB_VERIF_POINT(LCB_VP_BCAST_DEC_AFTER_UNLOCK);
 
 	if (0 != tm ||
 	    NULL == msg_data->done_cb)
@@ -213,6 +217,7 @@ tpt_msg_one_by_one_proxy_cb(tpt_p tpt, void *udata) {
 	msg_data = udata;
 	msg_data->msg_cb(tpt, msg_data->udata);
 	/* Send to next thread. */
+	LCB_VERIF_POINT(LCB_VP_ONE_BY_ONE_BEFORE_NEXT);
 	msg_data->cur_thr_idx ++;
 	if (0 == tpt_msg_one_by_one_send_next__int(tpt_get_tp(tpt), tpt, msg_data))
 		return;
@@ -279,6 +284,7 @@ tpt_msg_send(tpt_p dst, tpt_p src, uint32_t flags,
 	tpt_msg_pkt_t msg;
 	tpt_msg_queue_p msg_queue;
 
+	LCB_VERIF_POINT(LCB_VP_MSG_SEND_ENTRY);
 	if (NULL == dst || NULL == msg_cb)
 		return (EINVAL);
 	msg_queue = tpt_get_msg_queue(dst);
@@ -304,6 +310,7 @@ tpt_msg_send(tpt_p dst, tpt_p src, uint32_t flags,
 	msg.msg_cb = msg_cb;
 	msg.udata = udata;
 	TPT_MSG_PKT_CHK_SUM_SET(&msg);
+	LCB_VERIF_POINT(LCB_VP_MSG_SEND_BEFORE_WRITE);
 	if (sizeof(msg) == write(msg_queue->fd[1], &msg, sizeof(msg)))
 		return (0);
 	/* Error. */
@@ -422,6 +429,7 @@ tpt_msg_bsend_ex(tp_p tp, tpt_p src, uint32_t flags,
 		rqts.tv_nsec = 10000000; /* 1 sec = 1000000000 nanoseconds */
 		tm_cnt = tpt_msg_active_thr_count_dec(msg_data, src, tm_cnt);
 		while (0 != tm_cnt) {
+			LCB_VERIF_POINT(LCB_VP_BSEND_WAIT_LOOP);
 			if (0 == (TP_BMSG_F_SYNC_USLEEP & flags)) {
 				sched_yield();
 			} else {
